@@ -204,10 +204,12 @@ def build_layout(raw, variant):
 
 def canon_obj(x, depth=0):
     """canonical form of ANY attribute value, found by introspection (no hand-written attribute list)"""
-    if depth > 4:
+    if depth > 8:
         return "..."
     if isinstance(x, dict):
-        return {str(k): canon_obj(v, depth + 1) for k, v in sorted(x.items(), key=lambda kv: str(kv[0]))}
+        # a defaultdict grows empty entries when it is merely read: an empty list and an absent key are the same table
+        return {str(k): canon_obj(v, depth + 1) for k, v in sorted(x.items(), key=lambda kv: str(kv[0]))
+                if not (isinstance(v, list) and len(v) == 0)}
     if isinstance(x, (list, tuple)):
         return [canon_obj(v, depth + 1) for v in x]
     if isinstance(x, np.ndarray) or isinstance(x, np.generic):
@@ -529,6 +531,7 @@ def one_pair(ctx, res, env, case, lines, expect_cb, heavy=True, cli=False):
             res.fail("training a second model changed what the first model had recorded (shared storage)", c, "changed", "unchanged",
                      signature="C04:aliasing:" + kind)
         incremental(ctx, res, c, kind, scrA, scrB)
+        instalments(ctx, res, c, kind, scrA)
         if a != b:
             res.fail("training arrays differ between screens that differ only behind the mask", c, {"differs_in": first_diff(a, b), "A": a, "B": b},
                      "identical", signature="C04:train-interference:" + kind)
@@ -743,6 +746,11 @@ def incremental(ctx, res, c, kind, scrA, scrB):
             outs.append(rec_canon(record(kind, m)))
         except Exception as e:   # noqa: BLE001
             outs.append(S.err_tok(e))
+        bad = None if isinstance(outs[-1], str) else index_tables_ok(m)
+        if bad:
+            res.fail("the sampler's index tables do not file every observed experiment exactly once under its own sample / treatments "
+                     "(two instalments)", dict(c, check="incremental"), bad, "a partition of range(n_obs) consistent with the recorded rows",
+                     signature="C04:instalments:" + kind)
     res.evaluations += 1
     res.count("class.object-reuse.model-two-instalments")
     if outs[0] != outs[1]:
@@ -759,6 +767,107 @@ def incremental(ctx, res, c, kind, scrA, scrB):
         res.fail("a model trained in two instalments does not hold every observed row exactly once", dict(c, check="incremental"),
                  outs[0] if isinstance(outs[0], str) else {"differs_in": first_diff(outs[0], exp), "got": outs[0]}, exp,
                  signature="C04:trained-rows:" + kind)
+
+
+def sampler_state(m):
+    """EVERY attribute of the wrapped sampler, by introspection; index tables (dict of lists of row numbers) as sorted lists"""
+    out = {}
+    for k, v in sorted(vars(m.wrapped_model).items()):
+        if isinstance(v, dict) and all(isinstance(x, list) for x in v.values()):
+            out[k] = {str(kk): sorted(canon_obj(x) for x in vv) for kk, vv in sorted(v.items(), key=lambda kv: str(kv[0])) if len(vv)}
+        else:
+            out[k] = canon_obj(v)
+    return out
+
+
+def index_tables_ok(m):
+    """the sampler's index tables (`<rows>_idxs`: key -> row numbers) against its row lists (`<rows>`): every table must be a partition of
+    range(n_obs), and row i must be filed under exactly its own key.  Returns a description of the first problem or None."""
+    w = m.wrapped_model
+    n = int(m.n_obs())
+    found = 0
+    for name, table in sorted(vars(w).items()):
+        if not (name.endswith("_idxs") and isinstance(table, dict)):
+            continue
+        rows = getattr(w, name[:-5], None)
+        if rows is None:
+            continue
+        found += 1
+        if len(rows) != n:
+            return "%s has %d entries for %d observations" % (name[:-5], len(rows), n)
+        allidx = sorted(int(i) for v in table.values() for i in v)
+        if allidx != list(range(n)):
+            return "%s is not a partition of range(%d): %s" % (name, n, allidx[:40])
+        for k, v in table.items():
+            for i in v:
+                if int(rows[int(i)]) != int(k):
+                    return "%s files row %d under key %s but %s[%d] = %s" % (name, int(i), k, name[:-5], int(i), rows[int(i)])
+    if found == 0:
+        return "no index table found by introspection (harness needs updating)"
+    return None
+
+
+def instalments(ctx, res, c, kind, scr):
+    """object reuse / multi-call: the same observed rows (i) in ONE add_observations call and (ii) in 2-4 consecutive instalments (plate by
+    plate when the plates are contiguous) on a fresh model.  Every attribute of the wrapped sampler must be identical after the adds and
+    again after two step()s with identically seeded generators; the index tables must partition range(n_obs) consistently with the rows."""
+    from batchie.data import ExperimentSpace
+    mask = np.asarray(scr.observation_mask, dtype=bool)
+    idx = [int(i) for i in np.where(mask)[0]]
+    if len(idx) < 2:
+        return
+    pids = [int(x) for x in scr.plate_ids]
+    rng = ctx.subrng("c04-inst", c["seed"], kind)
+    bounds = [j for j in range(1, len(idx)) if pids[idx[j]] != pids[idx[j - 1]]]
+    contiguous = len(bounds) + 1 == len(set(pids[i] for i in idx))
+    if contiguous and bounds and rng.random() < 0.7:
+        cuts = bounds if len(bounds) <= 3 else sorted(rng.sample(bounds, 3))          # plate by plate
+        res.count("class.object-reuse.instalments-plate-by-plate")
+    else:
+        cuts = sorted(rng.sample(range(1, len(idx)), min(len(idx) - 1, rng.randint(1, 2))))
+        res.count("class.object-reuse.instalments-random-cuts")
+    blocks = [idx[a:b] for a, b in zip([0] + cuts, cuts + [len(idx)])]
+    cls = get_model_cls(kind)
+    cc = dict(c, check="instalments", blocks=blocks)
+    try:
+        m1 = cls(experiment_space=ExperimentSpace.from_screen(scr), n_embedding_dimensions=2)
+        m1.add_observations(scr.subset(mask))
+        m2 = cls(experiment_space=ExperimentSpace.from_screen(scr), n_embedding_dimensions=2)
+        for blk in blocks:
+            sel = np.zeros(len(mask), dtype=bool)
+            sel[blk] = True
+            m2.add_observations(scr.subset(sel))
+    except Exception as e:   # noqa: BLE001
+        res.fail("training in instalments raised", cc, "%s: %s" % (type(e).__name__, e), "trains", signature="C04:instalments:" + kind)
+        return
+    res.evaluations += 1
+    for tag, m in (("one call", m1), ("instalments", m2)):
+        bad = index_tables_ok(m)
+        if bad:
+            res.fail("the sampler's index tables do not file every observed experiment exactly once under its own sample / treatments (%s)" % tag,
+                     cc, bad, "a partition of range(n_obs) consistent with the recorded rows", signature="C04:instalments:" + kind)
+            return
+    s1, s2 = sampler_state(m1), sampler_state(m2)
+    if s1 != s2:
+        k = first_diff(s1, s2)
+        res.fail("a model trained in instalments differs from a model given the same rows in one call (each observed experiment exactly once)", cc,
+                 {"attribute": k, "one_call": str(s1.get(k))[:300], "instalments": str(s2.get(k))[:300]}, "identical sampler state",
+                 signature="C04:instalments:" + kind)
+        return
+    try:
+        for m in (m1, m2):
+            m.set_rng(np.random.default_rng(1234 + c["seed"]))
+        for _ in range(2):
+            m1.step()
+            m2.step()
+    except Exception as e:   # noqa: BLE001
+        res.fail("step() raised after training in instalments", cc, "%s: %s" % (type(e).__name__, e), "steps", signature="C04:instalments:" + kind)
+        return
+    s1, s2 = sampler_state(m1), sampler_state(m2)
+    if s1 != s2:
+        k = first_diff(s1, s2)
+        res.fail("posterior state after two step()s differs between one-call and instalment training of the same rows (same generator seed)", cc,
+                 {"attribute": k}, "bit-identical", signature="C04:instalments:" + kind)
 
 
 def refusals(ctx, res, case, rawA, rawB, scrA, lines, expect_cb):
